@@ -498,7 +498,10 @@ func (l *c12Layout) newGap(r *fw.RNG, i int) (string, string) {
 	old := l.gaps[i]
 	tail := i == len(l.sig)
 	ws := func() string {
-		return fw.Pick(r, []string{" ", " ", "  ", "\t", "\n", "\n\n", "\r\n", " \n ", "\n\t", "    "})
+		// every kind of white space the reader skips between tokens (unicode.IsSpace),
+		// not only the ASCII ones
+		return fw.Pick(r, []string{" ", " ", "  ", "\t", "\n", "\n\n", "\r\n", " \n ", "\n\t", "    ",
+			"\f", "\v", "\u0085", "\u00a0", "\u1680", "\u2003", "\u2028", "\u2029", "\u202f", "\u205f", "\u3000", " \u00a0", "\f\n"})
 	}
 	comment := func() string { return ";" + fw.Pick(r, c12CommentBodies) + "\n" }
 	oldHasComment := strings.Contains(old, ";")
